@@ -134,6 +134,14 @@ CHECKS["C16"] = dict(
     ref="C16",
 )
 
+CHECKS["C19"] = dict(
+    technique="Coq proofs for selections of any size (every selected type imported exactly once from its own module, nothing else imported, next code free / 100 for a new prefix) over the node table and template translated from source; generated text compared with the real generator by vm_compute; exhaustive singletons (+ pairs in thorough) compiled, loaded and linted",
+    category="proof",
+    text="Partial. FILE_TEMPLATE, the format arguments, build_imports and get_next_error_id are checked against their recognised shapes and translated with the node table (mapping.py + each class's module) and the existing codes. Proved for every NoDup selection: imports_cover / imports_are_selection (group-by-module model) and next_id_free for every prefix. The model instantiates the template and is compared with the file written by refurb.gen.main (fzf prompts stubbed) for every selection tried. That the text is valid Python, is accepted by the loader and fires on exactly the selected types cannot be a theorem without a Python parser: every single node type (exhaustive), 120 pairs (all 3486 in thorough) and random larger selections are compiled, passed through extract_function_types, and a sample is run with --load on a file containing every node kind.",
+    note="Trusted: Coq kernel; the gen.py shape check; model-text correspondence; compile() and the real loader as oracles.",
+    ref="C19",
+)
+
 NOT_APPLICABLE = {}
 
 
